@@ -18,7 +18,9 @@ EXPLANATION = ('Theorems in Props/C08.lean: the condition-stack machine on the f
                'Correspondence: image of the real CLI vs tree semantics (spec) and stack machine (impl).')
 ASSUMPTIONS = ['string-mode comparisons are generated only with single-token sides (the model does not reproduce text spacing)',
                'symbol names have >= 2 characters (SYMBOL_PATTERN)']
-SYMS = ['SYM_A', 'SYM_B', 'FLAG', 'MODE', 'ZZ', 'OPT_X', 'LEVEL', 'BASE_LEVEL']
+# lower-case names too: their first letters are letters of the directive words themselves (`#if flag`, `#elif level`,
+# `#if fifi`), and `flag` / `FLAG` are two different symbols
+SYMS = ['SYM_A', 'SYM_B', 'FLAG', 'MODE', 'ZZ', 'OPT_X', 'LEVEL', 'BASE_LEVEL', 'flag', 'idx', 'level', 'enable_x', 'fifi', 'elf_len']
 WORDS = ['foo', 'bar', 'release']
 OPS = ['==', '!=', '>', '>=', '<', '<=']
 
